@@ -72,10 +72,9 @@ pub fn deserialize_eps_zero<'a, T: ZeroCopy>(
 ) -> deser::Result<&'a T> {
     let bytes = core::mem::size_of::<T>();
     if bytes == 0 {
-        // SAFETY: T is zero-sized and `assume_init` is safe.
-        #[allow(invalid_value)]
-        #[allow(clippy::uninit_assumed_init)]
-        return Ok(unsafe { MaybeUninit::uninit().assume_init() });
+        // SAFETY: T is zero-sized, so a dangling (non-null, aligned) pointer
+        // is a valid reference to it.
+        return Ok(unsafe { core::ptr::NonNull::<T>::dangling().as_ref() });
     }
     backend.align::<T>()?;
     let (pre, data, after) = unsafe { backend.data[..bytes].align_to::<T>() };
